@@ -188,6 +188,12 @@ pub fn open_store(o: &StoreOpts, path: &Path) -> surrealkv::Result<Tree> {
 }
 
 /// Plan timestamps are offsets from the simulated epoch.
+/// The store's logical clock is strictly monotonic: every reading moves it at least one tick,
+/// and a compaction reads it for every version while simulated time stands still, so during a
+/// run it drifts ahead of the simulated clock (a few thousand ticks over dozens of compaction
+/// rounds). Versions this close to the edge of the retention window are not required.
+const RETENTION_SLACK_NS: u64 = 5_000;
+
 pub fn abs_ts(t: u64) -> u64 {
 	ip::SIM_EPOCH_NS + t
 }
@@ -1412,10 +1418,16 @@ impl Sh {
 							// been dropped (unless it is the key's newest): then any older
 							// surviving version, or nothing, is a legitimate answer
 							let vs = m.versions(&key, tm.horizon);
-							let now = ip::advance_clock(0);
+							let now = {
+								// the store's own logical clock: strictly monotonic, so it runs ahead of the
+								// simulated clock by one tick per reading while simulated time stands still
+								// (a compaction reads it for every version)
+								let t = self.tree.borrow().as_ref().map(|t| t.verif_clock_now()).unwrap_or(0);
+								t.max(ip::advance_clock(0))
+							};
 							if let Some(best) = vs.iter().filter(|v| v.0 <= *ts).map(|v| v.0).max() {
 								let newest = vs.iter().map(|v| v.0).max() == Some(best);
-								if !newest && now.saturating_sub(best) + 500 > retention {
+								if !newest && now.saturating_sub(best) + RETENTION_SLACK_NS > retention {
 									want.push(None);
 									for v in vs.iter().filter(|v| v.0 <= *ts) {
 										let a = if v.2 == Kind::SoftDelete { None } else { v.3.clone() };
@@ -1835,7 +1847,13 @@ impl Sh {
 			if limit.is_some() {
 				return;
 			}
-			let now = ip::advance_clock(0);
+			let now = {
+				// the store's own logical clock: strictly monotonic, so it runs ahead of the
+				// simulated clock by one tick per reading while simulated time stands still
+				// (a compaction reads it for every version)
+				let t = self.tree.borrow().as_ref().map(|t| t.verif_clock_now()).unwrap_or(0);
+				t.max(ip::advance_clock(0))
+			};
 			let ordered_ok = got.windows(2).all(|w| w[0].key < w[1].key || (w[0].key == w[1].key && w[0].ts >= w[1].ts));
 			let mut problem: Option<String> = None;
 			if !ordered_ok {
@@ -1858,7 +1876,7 @@ impl Sh {
 					let aged_replace_after = m.commits.iter().filter(|c| c.status != Status::Failed && c.last_seq <= tm.horizon).any(|c| {
 						c.writes.iter().any(|w| {
 							let t = w.ts.unwrap_or(c.commit_ts);
-							w.key == g.key && w.kind == Kind::Replace && t > g.ts && Some(t) != newest_ts && now.saturating_sub(t) + 500 > retention
+							w.key == g.key && w.kind == Kind::Replace && t > g.ts && Some(t) != newest_ts && now.saturating_sub(t) + RETENTION_SLACK_NS > retention
 						})
 					});
 					if !(written && aged_replace_after) {
@@ -1876,7 +1894,7 @@ impl Sh {
 				let newest_overall = m.versions(&w.key, tm.horizon).iter().map(|v| v.0).max() == Some(w.ts);
 				// (the store's logical clock is strictly monotonic: it can run a few ticks ahead of
 				// the simulated clock, hence the slack at the boundary)
-				let inside = now.saturating_sub(w.ts) + 500 <= retention;
+				let inside = now.saturating_sub(w.ts) + RETENTION_SLACK_NS <= retention;
 				if (inside || (newest && newest_overall)) && !got.contains(w) {
 					problem = Some(format!("misses {}@{} which is {} (now {}, retention {})", hex(&w.key), w.ts - ip::SIM_EPOCH_NS.min(w.ts), if inside { "inside the retention window" } else { "the newest version of its key" }, now - ip::SIM_EPOCH_NS.min(now), retention));
 				}
